@@ -507,6 +507,10 @@ pub fn c08_inputs(thorough: bool) -> Vec<Spec> {
 	out.push(Spec::Native(Native::BoxedTupRRP(1, 3, 1)));
 	// owned data listed against its address order, through the unchecked-at-runtime constructors of the sorting
 	// collections and through checked collections of references to the same locks
+	// `&mut` members listed in descending address order: the sorting collections must still ascend
+	out.push(Spec::Native(Native::MutRefs(1, 3)));
+	out.push(Spec::Native(Native::MutRefs(3, 3)));
+	out.push(Spec::Native(Native::BoxedNewVec(3)));
 	for k in [Kind::Boxed, Kind::Ref] {
 		out.push(Spec::Native(Native::VecsNew(k)));
 		out.push(Spec::Native(Native::VecsRefs(k)));
